@@ -237,6 +237,7 @@ func (c *asyncClient) FlushSync() error {
 		c.cond.Wait()
 	}
 	c.mu.Unlock()
+	c.g.pass("flush", "") // the flush answer is held at the gate until the op line releases it
 	return nil
 }
 
@@ -299,7 +300,55 @@ func (c *asyncClient) drain() {
 	}
 }
 
+// trackMempool is what BlockExecutor.Commit sees: it notes whether FlushAppConn is called under the
+// mempool lock (v1's FlushAppConn unlocks the mutex it expects to hold: calling it unlocked is a fatal
+// runtime error, so the flush is then sent on the connection directly and the fact is reported)
+type trackMempool struct {
+	mempl.Mempool
+	conn     proxy.AppConnMempool
+	mu       sync.Mutex
+	locked   bool
+	unlocked bool // FlushAppConn was called without the lock
+}
+
+func (t *trackMempool) Lock() {
+	t.Mempool.Lock()
+	t.mu.Lock()
+	t.locked = true
+	t.mu.Unlock()
+}
+
+func (t *trackMempool) Unlock() {
+	t.mu.Lock()
+	t.locked = false
+	t.mu.Unlock()
+	t.Mempool.Unlock()
+}
+
+func (t *trackMempool) FlushAppConn() error {
+	t.mu.Lock()
+	locked := t.locked
+	if !locked {
+		t.unlocked = true
+	}
+	t.mu.Unlock()
+	if locked {
+		return t.Mempool.FlushAppConn()
+	}
+	return t.conn.FlushSync()
+}
+
+func (t *trackMempool) flag() string {
+	t.mu.Lock()
+	defer t.mu.Unlock()
+	if t.unlocked {
+		return " flush-outside-lock"
+	}
+	return ""
+}
+
 type mpCase struct {
+	track   *trackMempool
 	async   *asyncClient
 	ver     string
 	g       *gate
@@ -338,8 +387,9 @@ func newMPCase(ver string, pool int, async bool) (*mpCase, error) {
 		return nil, err
 	}
 	m.state = st
+	m.track = &trackMempool{Mempool: m.mp, conn: mconn}
 	m.be = sm.NewBlockExecutor(sm.NewStore(dbm.NewMemDB(), sm.StoreOptions{}), log.NewNopLogger(),
-		proxy.NewAppConnConsensus(ccli), m.mp, sm.EmptyEvidencePool{})
+		proxy.NewAppConnConsensus(ccli), m.track, sm.EmptyEvidencePool{})
 	for j := 0; j < pool; j++ {
 		if err := m.mp.CheckTx(types.Tx(fmt.Sprintf("p%03d", j)), nil, mempl.TxInfo{}); err != nil {
 			return nil, err
@@ -431,9 +481,9 @@ func (m *mpCase) settle() string {
 				if q := m.async.names(); len(q) > 0 {
 					qs = strings.Join(q, ",")
 				}
-				return fmt.Sprintf("gate=%s queue=%s pool=%d", gs, qs, m.mp.Size())
+				return fmt.Sprintf("gate=%s queue=%s pool=%d%s", gs, qs, m.mp.Size(), m.track.flag())
 			}
-			return fmt.Sprintf("gate=%s pool=%d", gs, m.mp.Size())
+			return fmt.Sprintf("gate=%s pool=%d%s", gs, m.mp.Size(), m.track.flag())
 		}
 	}
 	return "TIMEOUT-not-quiescent"
